@@ -185,6 +185,20 @@ example : ∃ (X : ByteArray → ByteArray → Nat → Option ByteArray) (S : Se
     simp only [Set.mem_insert_iff, Set.mem_singleton_iff] at ha hb
     rcases ha with rfl | rfl <;> rcases hb with rfl | rfl <;> first | rfl | (exfalso; revert hab; decide), by simp, by simp⟩
 
+/-! ### regenerated `Sgn0` and `MulByA` methods -/
+
+/-- the regenerated `Sgn0` methods are RFC 9380 §4.1 `sgn0`: the parity of the element for `m = 1`, and
+`sign_0 OR (zero_0 AND sign_1)` for `Fp2`; the regenerated P-256 `MulByA` is multiplication by `-3` -/
+theorem sgn0_matches_rfc {F B : Type} [Field F] (lsb : F → Bool) (u0 u1 : F → B) (lsbB isZeroB : B → Bool) (v : F) :
+    k256.sgn0 lsb v = lsb v ∧ p256.sgn0 lsb v = lsb v ∧ pallas.sgn0 lsb v = lsb v ∧ vesta.sgn0 lsb v = lsb v ∧
+    bls12381g1.sgn0 lsb v = lsb v ∧
+    bls12381g2.sgn0 u0 u1 lsbB isZeroB v = (lsbB (u0 v) || (isZeroB (u0 v) && lsbB (u1 v))) ∧
+    p256.mulByA v = -3 * v := by
+  refine ⟨rfl, rfl, rfl, rfl, rfl, rfl, ?_⟩
+  simp only [p256.mulByA]; ring
+
+example : k256.sgn0 (fun x : ZMod 11 => x.val % 2 == 1) 3 = true := by decide
+
 /-! ### regenerated constants -/
 
 /-- every regenerated suite constant equals the published one (RFC 9380 §8; pasta: zcash/pasta_curves), and the
